@@ -42,6 +42,14 @@ type Desc struct {
 	// OnClose: the driver carries on-close hooks (generic and network level) that write "exit" and a
 	// return to the channel, as the shipped platform definitions do.
 	OnClose bool `json:"on_close,omitempty"`
+	// Reopened: the same driver object went through that many Open/Close rounds before the Open and
+	// Close that are judged ("after a successful open" holds for every successful open of an object,
+	// not only its first). How the earlier connection ended is ReopenAfter: "" = plain Close,
+	// "eof" = the peer closed the stream and the reader saw it, then Close.
+	// LongOps: the connection's operation timeout is 40 s instead of 3 s (Close must not be bounded by it).
+	LongOps     bool   `json:"long_ops,omitempty"`
+	Reopened    int    `json:"reopened,omitempty"`
+	ReopenAfter string `json:"reopen_after,omitempty"`
 	// OnCloseReads: the generic on-close hook sends two commands and waits for their output; the
 	// device has gone mute, so each runs into the (short) operation timeout.
 	OnCloseReads bool `json:"on_close_reads,omitempty"`
@@ -195,7 +203,7 @@ func runSession(d Desc) mon.Result {
 		case "c12e":
 			res = c12.RunEscalation(c12.GenEscalation(r))
 		case "c18":
-			res = c18.Run(c18.GenCase(r))
+			res = c18.Run(c18.GenCase(r, 0))
 		}
 		obs := map[string]int64{"sessions_under_race_detector": 1, "yield_hits": int64(ct.stats().hits), "other_property_sessions:" + d.Other: 1}
 		if res.Verdict == mon.Violated {
@@ -280,7 +288,11 @@ func runClose(d Desc) mon.Result {
 	if d.LogSinkFails {
 		extra = append(extra, options.WithChannelLog(sink))
 	}
-	s, err := sc.New(cfg, 3*time.Second, extra...)
+	opsT := 3 * time.Second
+	if d.LongOps {
+		opsT = 40 * time.Second
+	}
+	s, err := sc.New(cfg, opsT, extra...)
 	if err != nil {
 		return mon.Result{Verdict: mon.Inconclusive, Detail: "constructor: " + err.Error()}
 	}
@@ -304,10 +316,6 @@ func runClose(d Desc) mon.Result {
 		}
 		return mon.Result{Verdict: mon.Inconclusive, Detail: "open failed on a healthy connection: " + err.Error()}
 	}
-	s.Quiesce(3 * time.Second)
-	sink.fail.Store(true)
-	var gen int
-	s.Conn.Do(func() { gen = s.Conn.Generated() })
 	closeFn := func() error {
 		switch {
 		case s.D != nil:
@@ -317,6 +325,46 @@ func runClose(d Desc) mon.Result {
 		}
 		return s.G.Close()
 	}
+	for i := 0; i < d.Reopened; i++ {
+		// earlier rounds of the same object: only panics are judged here, the round that follows
+		// a successful re-open is judged in full below
+		s.Quiesce(3 * time.Second)
+		if d.ReopenAfter == "eof" {
+			var g0 int
+			s.Conn.Do(func() { g0 = s.Conn.Generated() })
+			s.Conn.SetFault(devsim.FaultEOF, g0)
+			dl := time.Now().Add(2 * time.Second)
+			for !s.Conn.SawReadErr() && time.Now().Before(dl) {
+				time.Sleep(200 * time.Microsecond)
+			}
+		}
+		select {
+		case r := <-bounded(closeFn):
+			if r.pan != nil {
+				return mon.Result{Verdict: mon.Violated, Key: "c07/panic-in-caller:close-before-reopen", Detail: fmt.Sprintf("Close of round %d panicked: %v", i+1, r.pan), NonTrivial: true}
+			}
+		case <-time.After(8 * time.Second):
+			return mon.Result{Verdict: mon.Inconclusive, Detail: "Close of an earlier round did not return (judged by the cases without re-open)"}
+		}
+		s.Conn.ClearFault()
+		select {
+		case r := <-bounded(func() error { return sc.Pre(s) }):
+			if r.pan != nil {
+				return mon.Result{Verdict: mon.Violated, Key: "c07/panic-in-caller:reopen", Detail: fmt.Sprintf("Open of round %d on the same driver panicked: %v", i+2, r.pan), NonTrivial: true}
+			}
+			if r.err != nil {
+				// the library may refuse to open an object again: then there is no successful open to judge
+				return mon.Result{Verdict: mon.Held, Obs: map[string]int64{"reopen_refused:" + d.Driver: 1}, Tags: []string{"reopen=refused:" + d.Driver},
+					Sample: map[string]interface{}{"desc": d.Driver + " re-open refused", "err": r.err.Error()}}
+			}
+		case <-time.After(20 * time.Second):
+			return mon.Result{Verdict: mon.Inconclusive, Detail: "re-open did not return in 20 s"}
+		}
+	}
+	s.Quiesce(3 * time.Second)
+	sink.fail.Store(true)
+	var gen int
+	s.Conn.Do(func() { gen = s.Conn.Generated() })
 	viol := func(key, f string, a ...interface{}) mon.Result {
 		return mon.Result{Verdict: mon.Violated, Key: key,
 			Detail: fmt.Sprintf("%s state=%s close=%s readdelay=%dus A=%s B=%s rand=%v onclose=%v alivetracks=%v: ", d.Driver, d.State, d.CloseB, d.ReadDelay, d.A, d.B, d.RandDelay, d.OnClose, d.AliveTracks) + fmt.Sprintf(f, a...),
@@ -546,6 +594,9 @@ func runClose(d Desc) mon.Result {
 	if d.OpenFails > 0 {
 		obs["closes_after_refused_then_retried_open"]++
 	}
+	if d.Reopened > 0 {
+		obs["closes_of_a_reopened_driver:"+d.Driver]++
+	}
 	if d.OnCloseFails {
 		obs["closes_with_failing_on_close_hooks"]++
 	}
@@ -629,7 +680,7 @@ func gen(tier string, seed int64) []mon.Case {
 	n := 0
 	add := func(d Desc) {
 		d.Seed = seed*100003 + int64(n)
-		cs = append(cs, mon.MkCase(fmt.Sprintf("c07/%05d-%s-%s-%s-rd%d%s%s", n, d.Driver, d.State, d.CloseB, d.ReadDelay, map[bool]string{true: "-alive"}[d.AliveTracks], map[bool]string{true: fmt.Sprintf("-refused%d", d.OpenFails)}[d.OpenFails > 0]+map[bool]string{true: "-hookfails"}[d.OnCloseFails]+map[bool]string{true: "-logsinkfails"}[d.LogSinkFails]+map[bool]string{true: "-hookreads"}[d.OnCloseReads]), d))
+		cs = append(cs, mon.MkCase(fmt.Sprintf("c07/%05d-%s-%s-%s-rd%d%s%s", n, d.Driver, d.State, d.CloseB, d.ReadDelay, map[bool]string{true: "-alive"}[d.AliveTracks], map[bool]string{true: fmt.Sprintf("-refused%d", d.OpenFails)}[d.OpenFails > 0]+map[bool]string{true: "-hookfails"}[d.OnCloseFails]+map[bool]string{true: "-logsinkfails"}[d.LogSinkFails]+map[bool]string{true: "-hookreads"}[d.OnCloseReads]+map[bool]string{true: fmt.Sprintf("-reopened%d%s", d.Reopened, d.ReopenAfter)}[d.Reopened > 0]+map[bool]string{true: "-longops"}[d.LongOps]), d))
 		n++
 	}
 	drivers := []string{"generic", "network", "netconf"}
@@ -662,6 +713,15 @@ func gen(tier string, seed int64) []mon.Case {
 					if rd == 250 && cb != "blocked" && (st == "idle-blocked" || st == "peer-closed-unnoticed" || st == "err-parked" || st == "op-in-flight" || st == "second-close") {
 						// "after a successful open" that was preceded by refused attempts on the same object
 						add(Desc{Kind: "close", Driver: dr, State: st, CloseB: cb, ReadDelay: rd, OpenFails: 1 + n%2})
+					}
+					if rd != 0 && (st == "data-arriving" || st == "idle-blocked" || st == "idle-cycling") {
+						// a long operation timeout: nothing in Close may wait it out
+						add(Desc{Kind: "close", Driver: dr, State: st, CloseB: cb, ReadDelay: rd, LongOps: true, OnClose: dr != "netconf" && rd == 250})
+					}
+					if rd == 250 && cb != "blocked" && (st == "idle-blocked" || st == "peer-closed-unnoticed" || st == "peer-closed-racing" || st == "err-consumed" || st == "data-arriving" || st == "op-in-flight" || st == "second-close") {
+						// the same driver object used for a second (third) connection
+						add(Desc{Kind: "close", Driver: dr, State: st, CloseB: cb, ReadDelay: rd, Reopened: 1 + n%2})
+						add(Desc{Kind: "close", Driver: dr, State: st, CloseB: cb, ReadDelay: rd, Reopened: 1, ReopenAfter: "eof"})
 					}
 					if rd == 250 && (strings.HasPrefix(st, "peer-closed") || strings.HasPrefix(st, "err-") || st == "error-arriving") {
 						add(Desc{Kind: "close", Driver: dr, State: st, CloseB: cb, ReadDelay: rd, AliveTracks: true, OnClose: dr != "netconf" && cb == "eof"})
